@@ -134,3 +134,28 @@ CHECKS["C08"] = {
             "of multipitch (np.allclose relative tolerance) is a listed finding.",
     "note": _NOTE,
 }
+
+CHECKS["C09"] = {
+    "design_ref": "DESIGN.md section 5 C09",
+    "technique": "offline invariance checker over a recorded event log "
+                 "(respelling, joint transposition, frequency factor, octave shift, "
+                 "sign flip); key-pair domain enumerated exhaustively",
+    "text": "Every recorded pair of executions related by enharmonic respelling, "
+            "joint transposition, a common frequency factor, an estimate-only "
+            "octave shift or negated estimate frequencies returned identical "
+            "comparison vectors / scores; all ordered key pairs x 12 transpositions "
+            "were enumerated.",
+    "note": _NOTE,
+}
+CHECKS["C12"] = {
+    "design_ref": "DESIGN.md section 5 C12",
+    "technique": "offline refinement-invariance checker over a recorded event log + "
+                 "runtime exact-rational post-condition on every "
+                 "chord.weighted_accuracy call",
+    "text": "Every recorded (annotation, refinement) pair gave equal chord.evaluate, "
+            "frame-based segment and L-measure scores; every observed "
+            "weighted_accuracy call (incl. those made by chord.evaluate) equalled "
+            "the exact duration-weighted mean over comparable items and was "
+            "invariant to weight rescaling.",
+    "note": _NOTE,
+}
